@@ -183,6 +183,81 @@ lossy_probe!(lossy_sync_digraph, sync_digraph, iter_out, true);
 lossy_probe!(lossy_ungraph, ungraph, iter, false);
 lossy_probe!(lossy_sync_ungraph, sync_ungraph, iter, false);
 
+// ---------------------------------------------------------------------------------------------------------------
+// Node VALUE type whose PartialOrd deliberately disagrees with its Ord (C06): nodes are ordered by their values
+// through `Ord` ("identically through Ord and PartialOrd"), and priority-first search expands by `N::cmp`; the value's
+// own `partial_cmp` must never decide anything.  Self-checking probe (step `nvord`): all six operators on nodes against
+// the integers, and the path of pfs in min and max mode through the child of least / greatest value.
+#[derive(Clone, Debug, PartialEq, Eq)]
+pub struct Nv(pub i64);
+impl Ord for Nv {
+    fn cmp(&self, o: &Self) -> std::cmp::Ordering {
+        self.0.cmp(&o.0)
+    }
+}
+impl PartialOrd for Nv {
+    fn partial_cmp(&self, o: &Self) -> Option<std::cmp::Ordering> {
+        Some(o.0.cmp(&self.0)) // reversed on purpose
+    }
+}
+
+macro_rules! nvord_probe {
+    ($name:ident, $fl:ident) => {
+        pub fn $name() -> String {
+            use gdsl::$fl::Node;
+            let vals = [3i64, 1, 4, 1, 5];
+            let ns: Vec<Node<u64, Nv, u64>> = vals.iter().enumerate().map(|(i, v)| Node::new(i as u64, Nv(*v))).collect();
+            for (i, a) in ns.iter().enumerate() {
+                for (j, b) in ns.iter().enumerate() {
+                    let want = vals[i].cmp(&vals[j]);
+                    if a.cmp(b) != want {
+                        return format!("cmp of nodes with values {} {} is {:?}", vals[i], vals[j], a.cmp(b));
+                    }
+                    if a.partial_cmp(b) != Some(want) {
+                        return format!("partial_cmp of nodes with values {} {} is {:?}, cmp is {:?}", vals[i], vals[j], a.partial_cmp(b), want);
+                    }
+                    let ops = [a < b, a <= b, a > b, a >= b];
+                    let wops = [vals[i] < vals[j], vals[i] <= vals[j], vals[i] > vals[j], vals[i] >= vals[j]];
+                    if ops != wops {
+                        return format!("operators < <= > >= on nodes with values {} {} give {:?}", vals[i], vals[j], ops);
+                    }
+                }
+            }
+            // root -> c_i -> t : the path goes through the child expanded first
+            let cvals = [3i64, 1, 4, 2, 6, 5];
+            for mode in 0..2 {
+                let root: Node<u64, Nv, u64> = Node::new(100, Nv(0));
+                let t: Node<u64, Nv, u64> = Node::new(200, Nv(50));
+                let cs: Vec<Node<u64, Nv, u64>> = cvals.iter().enumerate().map(|(i, v)| Node::new(i as u64, Nv(*v))).collect();
+                for c in &cs {
+                    root.connect(c, 0);
+                    c.connect(&t, 0);
+                }
+                let p = if mode == 0 { root.pfs().min().target(&200).search_path() } else { root.pfs().max().target(&200).search_path() };
+                let want = if mode == 0 { 1u64 } else { 4u64 };
+                match p {
+                    None => return "pfs finds no path to a reachable target".to_string(),
+                    Some(p) => {
+                        let ks: Vec<u64> = p.to_vec_nodes().iter().map(|n| *n.key()).collect();
+                        if ks != vec![100, want, 200] {
+                            return format!("pfs {} reaches the target through {:?}, not through the child of {} value (key {})",
+                                if mode == 0 { "min" } else { "max" }, ks, if mode == 0 { "least" } else { "greatest" }, want);
+                        }
+                    }
+                }
+                // break the cycles of Rc/Arc
+                root.isolate();
+                t.isolate();
+            }
+            "ok".to_string()
+        }
+    };
+}
+nvord_probe!(nvord_digraph, digraph);
+nvord_probe!(nvord_sync_digraph, sync_digraph);
+nvord_probe!(nvord_ungraph, ungraph);
+nvord_probe!(nvord_sync_ungraph, sync_ungraph);
+
 #[derive(Clone, PartialEq, Eq, Debug)]
 pub struct Ky(pub u64);
 impl std::hash::Hash for Ky {
